@@ -2,6 +2,8 @@ SPECIFICATION Spec
 CONSTANTS MaxBr = 2 MaxN = 2 CopyMode = "none"
   BufSizes <- BufAll
   FillBr = 2
+  ExtraBr = 2
+  Shapes <- QuickShapes
   FillTemplates <- FillFew
   Templates <- FewTemplates
 INVARIANT Isolated
